@@ -71,6 +71,8 @@ type CallObs struct {
 	Plan *CallPlan
 	Call *simhttp.Call
 
+	icptCancel context.CancelFunc
+
 	Ops          []OpRec
 	OpsRcv       []OpRec
 	Recv         [][]byte // copies taken at the instant the API yielded the message
@@ -309,6 +311,9 @@ func (w *World) client(p *CallPlan) *connect.Client[Msg, Msg] {
 	}
 	if cfg.Hedge {
 		opts = append(opts, connect.WithInterceptors(hedgeInterceptor{}))
+	}
+	if cfg.DeadlineIcpt {
+		opts = append(opts, connect.WithInterceptors(deadlineInterceptor{}))
 	}
 	var hc connect.HTTPClient = w.Net
 	if w.real != nil {
@@ -682,10 +687,16 @@ func (w *World) callCtx(o *CallObs) (context.Context, context.CancelFunc, func()
 	cleanup := func() {}
 	o.StartTime = time.Now()
 	if d := o.Plan.Deadline; d != 0 {
-		var c context.CancelFunc
-		ctx, c = context.WithTimeout(ctx, d)
 		o.Call.Ctx.SetDeadline(o.StartTime.Add(d))
-		cleanup = c
+		if o.Plan.InterceptDeadline {
+			// the effective deadline comes from a client interceptor
+			d = o.Plan.CallerDeadline
+		}
+		if d != 0 {
+			var c context.CancelFunc
+			ctx, c = context.WithTimeout(ctx, d)
+			cleanup = c
+		}
 	}
 	if o.Plan.CancelTask || o.Plan.CancelBefore || hasCancelOp(o.Plan) {
 		var c context.CancelFunc
@@ -754,6 +765,11 @@ func (w *World) runCall(t *core.Task, o *CallObs) {
 	w.opGate(o, "begin")
 	ctx, cancel, cleanup := w.callCtx(o)
 	defer cleanup()
+	defer func() {
+		if o.icptCancel != nil {
+			o.icptCancel()
+		}
+	}()
 	if p.CancelTask {
 		w.S.Go(p.ID+"/canceller", func(*core.Task) {
 			if w.real != nil && p.CancelDelay > 0 {
@@ -1010,5 +1026,41 @@ func (hedgeInterceptor) WrapStreamingClient(next connect.StreamingClientFunc) co
 		primary.RequestHeader().Set("X-Attempt", "primary")
 		backup.RequestHeader().Set("X-Attempt", "backup")
 		return primary
+	}
+}
+
+// deadlineInterceptor is the usual default-timeout interceptor: the call runs
+// under a context the interceptor derives from the caller's.
+type deadlineInterceptor struct{}
+
+func icptDeadline(ctx context.Context) (context.Context, context.CancelFunc) {
+	if o, ok := ctx.Value(obsKey{}).(*CallObs); ok && o.Plan.InterceptDeadline && o.Plan.Deadline > 0 {
+		return context.WithTimeout(ctx, o.Plan.Deadline)
+	}
+	return ctx, func() {}
+}
+
+func (deadlineInterceptor) WrapUnary(next connect.UnaryFunc) connect.UnaryFunc {
+	return func(ctx context.Context, req connect.AnyRequest) (connect.AnyResponse, error) {
+		if !req.Spec().IsClient {
+			return next(ctx, req)
+		}
+		ctx, cancel := icptDeadline(ctx)
+		defer cancel()
+		return next(ctx, req)
+	}
+}
+
+func (deadlineInterceptor) WrapStreamingHandler(next connect.StreamingHandlerFunc) connect.StreamingHandlerFunc {
+	return next
+}
+
+func (deadlineInterceptor) WrapStreamingClient(next connect.StreamingClientFunc) connect.StreamingClientFunc {
+	return func(ctx context.Context, spec connect.Spec) connect.StreamingClientConn {
+		ctx, cancel := icptDeadline(ctx)
+		if o, ok := ctx.Value(obsKey{}).(*CallObs); ok {
+			o.icptCancel = cancel
+		}
+		return next(ctx, spec)
 	}
 }
